@@ -3169,7 +3169,13 @@ class Map(TraitType):
         return self.map[value]
 
     def post_setattr(self, object, name, value):
-        setattr(object, name + "_", self.mapped_value(value))
+        try:
+            mapped = self.mapped_value(value)
+        except Exception:
+            # Not one of our keys: the value was accepted by another member
+            # of a compound trait, whose handler catches this TraitError.
+            raise TraitError("Unmappable")
+        setattr(object, name + "_", mapped)
 
     def info(self):
         keys = sorted(repr(x) for x in self.map.keys())
@@ -3295,7 +3301,13 @@ class PrefixMap(TraitType):
         return self.map[value]
 
     def post_setattr(self, object, name, value):
-        setattr(object, name + "_", self.mapped_value(value))
+        try:
+            mapped = self.mapped_value(value)
+        except Exception:
+            # Not one of our keys: the value was accepted by another member
+            # of a compound trait, whose handler catches this TraitError.
+            raise TraitError("Unmappable")
+        setattr(object, name + "_", mapped)
 
     def info(self):
         return (
